@@ -1,5 +1,4 @@
 # property id -> claim text; read by tools/mkmanifest.py
-PENDING = {}
 CLAIMS["C01"] = {
  "text": "Coq theorems C01_oneshot / C01_incremental / C01_length (Props/Properties_C01.v): the C-shaped model of ascon*_aead_encrypt and of the incremental API equals the byte-level ASCON v1.2 specification for every key, nonce, AD, plaintext and every split into calls, for all three variants (no bound on lengths). Tie to the code: the extracted model is run against the library built from /repo's working tree (one-shot, incremental, masked, C++ entry points; default and C32 builds in quick, all five backends in thorough) and the spec is validated on the repository's KAT files.",
  "note": "Trusted: Coq kernel; Spec/Aead.v as a transcription of ASCON v1.2 (KAT-validated); Model/Aeadm.v faithful to the C only as far as the differential run shows; extraction (ExtrOcamlBasic only); harness and generators. Print Assumptions: closed under the global context.",
